@@ -264,6 +264,35 @@ Definition step (s : st) (o e : line) : st * outline :=
           else (s, (refused, []))
       | None => (s, ([-2], []))
       end
+  | 2 :: r :: kind :: args =>                            (* one real item into a sketch: the C03 item path *)
+      match reg_get (sks s) r with
+      | Some x =>
+          if (kind <? 0) || (11 <? kind) then (s, (refused, [])) else
+          match item_bytes kind args with
+          | None => (s, (ok, []))                        (* empty string: ignored *)
+          | Some bs =>
+              let cl := [coupon_of_bytes bs] in
+              match sk_updates (k_impl x) cl with
+              | Some i' => ({| sks := reg_set (sks s) r {| k_impl := i'; k_log := k_log x ++ nonzero cl |}; uns := uns s |}, (ok, []))
+              | None => (s, (refused, []))
+              end
+          end
+      | None => (s, (refused, []))
+      end
+  | 20 :: u :: kind :: args =>                           (* one real item into the union through hll_union::update(kind) *)
+      match reg_get (uns s) u with
+      | Some x =>
+          if (kind <? 0) || (11 <? kind) then (s, (refused, [])) else
+          match item_bytes kind args with
+          | None => (s, (ok, []))
+          | Some bs =>
+              match feed_union x [coupon_of_bytes bs] with
+              | Some x' => ({| sks := sks s; uns := reg_set (uns s) u x' |}, (ok, []))
+              | None => (s, (refused, []))
+              end
+          end
+      | None => (s, (refused, []))
+      end
   | 3 :: r :: cs =>                                      (* raw coupons into a sketch *)
       match reg_get (sks s) r with
       | Some x =>
